@@ -75,3 +75,17 @@ Theorem C13_merge_position0_exact (S : ScalOps) (L : ScalLaws S) (pre : Q -> Q) 
   ksum (map (@fz S) (merge_amps (merge_plan pre rnd wav dk grid) amps)) = ksum (map (@fz S) amps).
 Proof. exact (merge_adds_exact S L pre rnd wav dk grid amps). Qed.
 Print Assumptions C13_merge_position0_exact.
+
+(* (8) n-D truncation: with a cap m, every wavenumber kept by the n-D shift (pruned or not) passes the cap test
+   [within kdim m] = all |components| <= m in at least one batch entry ... *)
+Theorem C13_nd_cap (S : ScalOps) (negl : triple S -> bool) (keys : list key) (amps : list (list (triple S)))
+  (dk : key) (kdim : nat) (m : Z) (prune : bool) (k : key) :
+  In k (fst (shiftnd negl keys amps dk kdim (Some m) prune)) -> within kdim m k = true.
+Proof. exact (nd_cap S negl keys amps dk kdim m prune k). Qed.
+Print Assumptions C13_nd_cap.
+
+(* ... which for un-batched wavenumbers means: no component exceeds the cap *)
+Theorem C13_nd_cap_components (kdim : nat) (m : Z) (k : key) : (0 < kdim)%nat -> length k = kdim ->
+  within kdim m k = true -> forall x, In x k -> (Z.abs x <= m)%Z.
+Proof. exact (within_single kdim m k). Qed.
+Print Assumptions C13_nd_cap_components.
